@@ -826,6 +826,8 @@ impl TypeLayout {
             // a present `T?` is compared as a `T`
             TypeLayout::Optional(Some(ty)) => ty.supports_equ(),
             TypeLayout::Class(..) => false,
+            // `Self` is a spelling of the class
+            TypeLayout::ClassSelf(..) => false,
             TypeLayout::Function(..) => false,
             TypeLayout::Module(..) => false,
             TypeLayout::Map(..) => false,
